@@ -291,5 +291,4 @@ def replay(ctx, doc):
         res = L.run_load(ctx, tr, second_load=inp.get("second_load", False))
         print("load outcome:", res["load"])
         return L.impl_outcome(res["load"]) != "ok"
-    print("replay of CLI zone cases: rerun the check with VERIF_SEED=%s" % doc.get("seed"))
-    return True
+    return None   # re-run the stream with the recorded seed (check.py does it)
